@@ -77,10 +77,7 @@ func (h *NFSProcedureHandler) HandleCall(call *RPCCall, body io.Reader, authCtx 
 	// is in progress, causing us to return JUKEBOX so clients retry.
 	if !handler.policyRWMu.TryRLock() {
 		// Policy drain in progress -- return NFSERR_JUKEBOX
-		var buf bytes.Buffer
-		xdrEncodeUint32(&buf, NFSERR_JUKEBOX)
-		reply.Data = buf.Bytes()
-		return reply, nil
+		return drainReply(call, reply), nil
 	}
 	// DO NOT defer RUnlock here -- the goroutine owns the lock so that
 	// drain-and-swap blocks until the goroutine's filesystem work finishes,
@@ -172,6 +169,50 @@ func (h *NFSProcedureHandler) HandleCall(call *RPCCall, body io.Reader, authCtx 
 		return nil, fmt.Errorf("operation timed out")
 	case result := <-replyChan:
 		return result, nil
+	}
+}
+
+// drainReply answers a call that arrives while a policy update is draining
+// in-flight requests. An NFSv3 procedure gets NFS3ERR_JUKEBOX inside the
+// failure result of that procedure, so the reply decodes and the client
+// retries; NULL procedures simply succeed. MOUNT has no retry-later status
+// and other programs are not served at all: those are answered at the RPC
+// level.
+func drainReply(call *RPCCall, reply *RPCReply) *RPCReply {
+	switch call.Header.Program {
+	case NFS_PROGRAM:
+		if call.Header.Version != NFS_V3 {
+			reply.AcceptStatus = SYSTEM_ERR
+			return reply
+		}
+	case MOUNT_PROGRAM:
+		if call.Header.Procedure != 0 {
+			reply.AcceptStatus = SYSTEM_ERR
+		}
+		return reply
+	default:
+		reply.AcceptStatus = PROG_UNAVAIL
+		return reply
+	}
+
+	switch call.Header.Procedure {
+	case NFSPROC3_NULL:
+		return reply
+	case NFSPROC3_GETATTR:
+		return nfsErrorReply(reply, NFSERR_JUKEBOX)
+	case NFSPROC3_LOOKUP, NFSPROC3_ACCESS, NFSPROC3_READLINK, NFSPROC3_READ,
+		NFSPROC3_READDIR, NFSPROC3_READDIRPLUS, NFSPROC3_FSSTAT, NFSPROC3_FSINFO, NFSPROC3_PATHCONF:
+		return nfsErrorWithPostOp(reply, NFSERR_JUKEBOX)
+	case NFSPROC3_SETATTR, NFSPROC3_WRITE, NFSPROC3_CREATE, NFSPROC3_MKDIR, NFSPROC3_SYMLINK,
+		NFSPROC3_MKNOD, NFSPROC3_REMOVE, NFSPROC3_RMDIR, NFSPROC3_COMMIT:
+		return nfsErrorWithWcc(reply, NFSERR_JUKEBOX)
+	case NFSPROC3_RENAME:
+		return nfsErrorWithDoubleWcc(reply, NFSERR_JUKEBOX)
+	case NFSPROC3_LINK:
+		return nfsErrorWithPostOpAndWcc(reply, NFSERR_JUKEBOX)
+	default:
+		reply.AcceptStatus = PROC_UNAVAIL
+		return reply
 	}
 }
 
